@@ -301,7 +301,14 @@ def findings_cases(chk, n_cases):
             ms = [Measurement(f"g{i}", Location(i + 1, 1), Location(i + 2, 1), v) for i, v in enumerate(ls)]
             cb.add_file(SourceFileEntry(name, "c", "Python", sum(ls), ms))
         cb.aggregate()
-        report = Report(cb)
+        # with / without a repository: the Markdown table then has linked function names, the rest of the contract is the same
+        # (seeded change C18-22: the 'more rows' line lost on the repository path)
+        with_repo = chk.rng.random() < 0.4
+        if with_repo:
+            from codelimit.common.GithubRepository import GithubRepository
+            report = Report(cb, GithubRepository("own", "nam", chk.rng.choice(["main", "feature/x"])))
+        else:
+            report = Report(cb)
         buf = io.StringIO()
         format_text.print_findings(Console(file=buf, width=10000, color_system=None), report, full)
         text_out = buf.getvalue()
@@ -310,11 +317,16 @@ def findings_cases(chk, n_cases):
         md_out = buf.getvalue()
         trows = [LINE.match(ln) for ln in text_out.splitlines()]
         trows = [(m.group(1), int(m.group(4)), m.group(6)) for m in trows if m]
-        mrows = []
+        mrows, links = [], []
         for ln in md_out.splitlines():
             cells = [c.strip() for c in ln.split("|")]
             if len(cells) == 7 and cells[2].isdigit():
                 mrows.append((cells[1], int(cells[4]), cells[5].split(" ", 1)[1]))
+            elif with_repo and len(cells) == 5 and cells[2].isdigit():
+                fm = re.match(r"^(\S) \[(.*)\]\((\S*)\)$", cells[1])
+                if fm:
+                    mrows.append((cells[3], int(cells[2]), fm.group(2)))
+                    links.append((fm.group(1), int(cells[2]), cells[3], fm.group(3)))
         tmore = re.search(r"^(\d+) more rows", text_out, re.M)
         mmore = re.search(r"^(\d+) more rows", md_out, re.M)
         units = [(name, v, f"g{i}") for name, ls in files for i, v in enumerate(ls) if v > 30]
@@ -330,7 +342,13 @@ def findings_cases(chk, n_cases):
             problems.append(f"text 'more rows' {tmore and tmore.group(1)} expected {exp_more}")
         if (int(mmore.group(1)) if mmore else None) != exp_more:
             problems.append(f"markdown 'more rows' {mmore and mmore.group(1)} expected {exp_more}")
-        case = {"files": files, "full": full}
+        for icon, v, f, link in links:
+            if icon != ("\u274C" if v > 60 else "\u26A0") or not re.match(
+                    r"^https://github\.com/own/nam/blob/" + re.escape(report.repository.branch) + "/" + re.escape(f) + r"#L\d+-L\d+$", link):
+                problems.append(f"markdown findings row of {f} ({v} lines): icon {icon!r}, link {link}")
+                break
+        case = {"files": files, "full": full, "repository": with_repo}
+        chk.count("findings: " + ("with" if with_repo else "without") + " repository")
         chk.case_seen(case, len(exp_all) > 0)
         chk.count("findings: %s" % ("<=10" if len(exp_all) <= 10 else ">10"))
         if problems:
